@@ -44,6 +44,9 @@ def gen_cases(tier, seed):
         cases.append({"layer": "L1", "mesh": {"kind": "explicit", "base": {"kind": "grid", "nx": int(rng.integers(4, 8)), "ny": int(rng.integers(4, 7))}, "decades": 2,
                                               "zero_duals": float(rng.choice([0.15, 0.3])), "seed": int(rng.integers(1 << 30))},
                       "ndraw": 5 if tier == "quick" else 20, "seed": int(rng.integers(1 << 30)), "cost": 3})
+    for j in range(1 if tier == "quick" else 3):
+        # one mesh with more than 2^15 edges: covariance of the operators IN USE (refreshed in place) under a non-uniform chi
+        cases.append({"layer": "L1large", "nx": int([112, 130, 150][j]), "ny": int([110, 125, 140][j]), "seed": int(rng.integers(1 << 30)), "cost": 30})
     npairs = 4 if tier == "quick" else 60
     for k in range(npairs):
         scr = (k % 4 == 3)
@@ -72,6 +75,18 @@ def gen_cases(tier, seed):
         td = bool(k % 3 == 2) or (k % 4 == 1)
         cases.append({"layer": "L2", "device": dev, "options": o, "B": B, "c": c, "time_dependent": td, "pulse": bool(k % 4 == 1),
                       "currents": S.current_spec(rng, dev, o, "const" if nt and k % 2 == 0 else "none", strength=0.15), "cost": 60 if scr else 20})
+    for k in range(2 if tier == "quick" else 6):
+        # both solver objects constructed before either is solved (static potentials: nothing rewrites the link variables later)
+        nt = int([2, 0][k % 2])
+        dev = zoo.gen_device(rng, n_terminals=nt, n_holes=0, probes=0, size="small", smooth=0, gamma=float([1.0, 10.0][k % 2]))
+        o = S.base_options(rng, adaptive=bool(k % 2), steps=100)
+        o["terminal_psi"] = [0.0, "none"][k % 2]
+        sc = S._scales(dev, o)
+        B = 0.3 * sc.Bc2 / sc.fu
+        Amax = B * dev["film"].get("w", 4.0) / 2
+        c = (np.array([0.8, -0.6]) * Amax * float([3.0, 0.5][k % 2])).tolist()
+        cases.append({"layer": "L2", "device": dev, "options": o, "B": B, "c": c, "time_dependent": False, "pulse": False, "together": True,
+                      "currents": S.current_spec(rng, dev, o, "const" if nt else "none", strength=0.15), "cost": 20})
     nvar = 3 if tier == "quick" else 12
     for k in range(nvar):
         # variants of the run-level pair: the device went through a file (saved and re-loaded) before both runs; or both runs CONTINUE
@@ -204,6 +219,14 @@ def _l1(spec):
             db = float(np.max(np.abs(Jb - fv.supercurrent(psi, em.edges, em.edge_lengths, em.directions, A)))) / (float(np.max(np.abs(J1))) + 1e-300)
             if db > 1e-10:
                 viol("supercurrent_not_gauge_invariant", {"which": "same_buffer_transformed_in_place", "rel": db, "pinned": fixed is not None})
+            # there and back again: A -> A' -> A on the same operators ends with the operators of A
+            mo3.set_link_exponents(np.array(A, copy=True))
+            Jback = mo3.get_supercurrent(psi)
+            cnt("there_and_back_checks")
+            dbk = float(np.max(np.abs(Jback - fv.supercurrent(psi, em.edges, em.edge_lengths, em.directions, A)))) / (float(np.max(np.abs(J1))) + 1e-300)
+            dLb = fv.max_abs_diff(sp.csr_matrix(mo3.psi_laplacian), sp.csr_matrix(LA_f)) / abs(sp.csr_matrix(LA_f)).max()
+            if dbk > 1e-10 or dLb > 1e-11:
+                viol("supercurrent_not_gauge_invariant", {"which": "gauge_change_and_its_inverse_on_the_same_operators", "rel": dbk, "laplacian_rel": dLb, "pinned": fixed is not None})
             mo2 = MeshOperators(mesh, SparseSolver.SUPERLU, fixed_sites=fixed, fix_psi=fixed is not None)
             mo2.build_operators()
             mo2.set_link_exponents(A2)
@@ -350,6 +373,7 @@ def _l2(spec):
             if "singular" in str(e1) or "converge" in str(e1):
                 return {"violations": [], "counters": {"refused_mesh": 1}, "classes": ["refused"], "nontrivial": False}
             raise
+    pending = []
     for shift in ((0.0, 0.0), tuple(c)):
         if variant == "parameter_sum":
             avp = tdgl.Parameter(_uniform_shifted_td, B=float(B), cx=0.0, cy=0.0, T=float(T), pulse=False, slow=False, time_dependent=True) + tdgl.Parameter(_const_shift, cx=float(shift[0]), cy=float(shift[1]))
@@ -378,7 +402,36 @@ def _l2(spec):
 
         rec = Recorder([keep])
         exc = None
-        with rec:
+        if spec.get("together"):
+            # BOTH solver objects exist before either of them runs (a user preparing a batch of runs on one device): the first
+            # one is built here as well and solved only after the second one has been constructed
+            if not pending:
+                try:
+                    solver = tdgl.TDGLSolver(dev, opts, applied_vector_potential=avp, terminal_currents=tc)
+                    pre(solver)
+                except Exception as e:  # noqa: BLE001
+                    return {"status": "harness_error", "error": repr(e)[:300]} if not (isinstance(e, RuntimeError) and "singular" in str(e)) else {"violations": [], "counters": {"refused_mesh": 1}, "classes": ["refused"], "nontrivial": False}
+                pending.append((solver, rec, keep))
+                continue
+            try:
+                solver2 = tdgl.TDGLSolver(dev, opts, applied_vector_potential=avp, terminal_currents=tc)
+                pre(solver2)
+            except Exception as e:  # noqa: BLE001
+                return {"status": "harness_error", "error": repr(e)[:300]}
+            pending.append((solver2, rec, keep))
+            for solver, rec_, keep_ in pending:
+                with rec_:
+                    try:
+                        solver.solve()
+                    except Exception as e:  # noqa: BLE001
+                        exc = e
+                if exc is not None:
+                    break
+                runs.append((keep_.ups, solver._vt_chi))
+            if exc is None:
+                continue
+        else:
+          with rec:
             try:
                 seed = tdgl.Solution.from_hdf5(first_path) if seeded else None
                 solver = tdgl.TDGLSolver(dev, opts, applied_vector_potential=avp, terminal_currents=tc, seed_solution=seed)
@@ -442,5 +495,49 @@ def _l2(spec):
             "nontrivial": C["run_steps_compared"] >= 20, "sample": {"steps": len(a), "shift": c, "worst_over_gate": W}}
 
 
+def _l1_large(spec):
+    from tdgl.finite_volume.operators import MeshOperators
+    from tdgl.solver.options import SparseSolver
+
+    rng = np.random.default_rng(spec["seed"])
+    mesh, info = meshzoo.build_mesh({"kind": "hex", "nx": spec["nx"], "ny": spec["ny"], "jitter": 0.05, "seed": spec["seed"]})
+    if mesh is None:
+        return {"violations": [], "counters": {"refused_mesh": 1}, "classes": ["refused"], "nontrivial": False}
+    em = mesh.edge_mesh
+    n, m = len(mesh.sites), len(em.edges)
+    e0, e1 = em.edges[:, 0], em.edges[:, 1]
+    d2 = np.sum(em.directions**2, axis=1)
+    V, C = [], {"large_mesh_covariance_checks": 0}
+    mo = MeshOperators(mesh, SparseSolver.SUPERLU, fixed_sites=None)
+    try:
+        mo.build_operators()
+    except RuntimeError as exc:
+        if "exactly singular" in str(exc):
+            return {"violations": [], "counters": {"refused_mesh": 1}, "classes": ["refused"], "nontrivial": False}
+        raise
+    A = rng.normal(size=(m, 2))
+    psi = (rng.normal(size=n) + 1j * rng.normal(size=n)) * 0.7
+    mo.set_link_exponents(A)
+    L1_ = sp.csr_matrix(mo.psi_laplacian).copy()
+    lap1 = L1_ @ psi
+    grad1 = mo.psi_gradient @ psi
+    J1 = mo.get_supercurrent(psi)
+    for amp in (3.0, 0.2):
+        chi = rng.normal(size=n) * amp
+        g = np.exp(1j * chi)
+        A2 = A + ((chi[e1] - chi[e0]) / d2)[:, None] * em.directions
+        mo.set_link_exponents(A2)  # in-place refresh of > 2^15 entries
+        C["large_mesh_covariance_checks"] += 1
+        dl = float(np.max(np.abs(mo.psi_laplacian @ (g * psi) - g * lap1)) / np.max(np.abs(lap1)))
+        dg = float(np.max(np.abs(mo.psi_gradient @ (g * psi) - g[e0] * grad1)) / np.max(np.abs(grad1)))
+        dj = float(np.max(np.abs(mo.get_supercurrent(g * psi) - J1)) / np.max(np.abs(J1)))
+        if max(dl, dg, dj) > 1e-10:
+            V.append({"kind": "laplacian_not_covariant" if dl > 1e-10 else ("gradient_not_covariant" if dg > 1e-10 else "supercurrent_not_gauge_invariant"),
+                      "mechanism": "operators_in_use_not_covariant_on_large_mesh", "detail": {"edges": m, "laplacian_rel": dl, "gradient_rel": dg, "supercurrent_rel": dj}})
+    return {"violations": V, "counters": C, "classes": ["L1/large_hex"], "nontrivial": C["large_mesh_covariance_checks"] > 0, "sample": {"sites": n, "edges": m}}
+
+
 def run_case(spec):
+    if spec["layer"] == "L1large":
+        return _l1_large(spec)
     return _l1(spec) if spec["layer"] == "L1" else _l2(spec)
